@@ -115,6 +115,8 @@ def render (h : Heap) (src : DictId) (ops : List Op) : St :=
 
 inductive Entry where
   | render | renderUnicode | renderContext | defRender | defRenderUnicode | defRenderContext
+  /-- `<%include args=…>` / `Namespace.include_file(uri, **kw)`: `runtime._include_file` -/
+  | includeFile
   deriving Repr, DecidableEq
 
 inductive Outcome where
@@ -130,8 +132,8 @@ def setWithTemplate (reserved : List Name) (dataKeys : List Name) : Outcome :=
 
 /-- `keys`: for `render*` the keyword arguments, for `render_context` the keys the given `Context` was
 created with; `kw`: the extra keyword arguments of `render_context`; `fresh`: `context._with_template is None`.
-`render_context` first runs `_set_with_template` on a fresh context, then (when the regenerated flag says the
-code does so) intersects `kwargs` with the reserved names. -/
+`render_context` first runs `_set_with_template` on a fresh context, then (when the regenerated flags say the
+code does so – for every context, fresh or already rendered into) intersects `kwargs` with the reserved names. -/
 def renderEntry (reserved : List Name) (e : Entry) (fresh : Bool) (keys kw : List Name) : Outcome :=
   match e with
   | .render | .renderUnicode | .defRender | .defRenderUnicode =>
@@ -140,7 +142,14 @@ def renderEntry (reserved : List Name) (e : Entry) (fresh : Bool) (keys kw : Lis
       match (if fresh then setWithTemplate reserved (keys ++ [captureName, callerName]) else .proceeds) with
       | .nameConflict l => .nameConflict l
       | .proceeds =>
-        if Generated.Names.renderContextChecksKwargs then setWithTemplate reserved kw else .proceeds
+        -- the kwargs check: present at all, and either a statement of the function body itself or (were it nested
+        -- under `if context._with_template is None`) reached for a fresh context only
+        if Generated.Names.renderContextChecksKwargs &&
+            (Generated.Names.renderContextKwargsCheckUnconditional || fresh) then setWithTemplate reserved kw
+        else .proceeds
+  | .includeFile =>
+      -- the context is a `_clean_inheritance_tokens()` copy of the running one: never fresh, its data was checked
+      if Generated.Names.includeChecksKwargs then setWithTemplate reserved kw else .proceeds
 
 /-! ## wire -/
 open MakoModel.Wire
@@ -148,7 +157,7 @@ open MakoModel.Wire
 def decEntry : String → Option Entry
   | "render" => some .render | "render_unicode" => some .renderUnicode | "render_context" => some .renderContext
   | "def.render" => some .defRender | "def.render_unicode" => some .defRenderUnicode
-  | "def.render_context" => some .defRenderContext | _ => none
+  | "def.render_context" => some .defRenderContext | "include" => some .includeFile | _ => none
 
 def encOutcome : Outcome → String
   | .proceeds => "ok"
